@@ -23,8 +23,9 @@ RULE = ("cells as C01 (LAMMPS triangular form, lengths 0.5-50, tilts up to 1.5 l
         "rotation and origin), plus dyadic cells (all arithmetic exact, exact ties and faces) and integer cells with "
         "integer-valued float Cartesian points; point sets one-to-one / one-to-many (either side) / many-to-many, 70 % "
         "inside [0,1]^3 (faces included), 30 % in [-3,4]^3, partly built as 'near partner wrapped through a face'; "
-        "inputs spelled as ndarray / list / tuple, through am.dvect, am.dmag, System.dvect/dmag with float positions "
-        "and with integer atom indices (int, list, array, slice, negative); EVERY case is evaluated under all 8 "
+        "inputs spelled as ndarray / strided view / list / tuple / int-typed list, through am.dvect, am.dmag, System.dvect/dmag "
+        "with float positions, with atom indices (int, numpy int, list, array, slice, negative, boolean mask) and mixed; "
+        "EVERY case is evaluated under all 8 "
         "periodicity settings.  Non-trivial: under at least one setting with a periodic axis the winning image of "
         "at least one pair is not the direct separation (displacement: same, with a reference cell chosen)")
 ASSUMPTIONS = ["numpy linear algebra is correct",
@@ -80,6 +81,10 @@ def _index(lo, n, natoms, how):
         return [i - natoms for i in ids]
     if how == 'array':
         return np.array(ids, dtype=np.int64)
+    if how == 'mask':
+        m = np.zeros(natoms, dtype=bool)
+        m[lo:lo + n] = True
+        return m
     return ids
 
 
@@ -123,6 +128,9 @@ class Setup:
         if self.route == 'sys_idx':
             return (_index(0, self.n0, self.natoms, case['idx']), _index(self.n0, self.n1, self.natoms, case['idx']))
         how = case['spell']
+        if self.route == 'sys_mix':
+            return (_spell(self.P0, case['flat0'], 'list' if how == 'intlist' else how),
+                    _index(self.n0, self.n1, self.natoms, case['idx']))
         if how == 'intlist' and self.route != 'func':
             how = 'list'
         return (_spell(self.P0, case['flat0'], how), _spell(self.P1, case['flat1'], how))
@@ -170,9 +178,9 @@ class Setup:
         labs = gens.cell_labels(case['cell'])
         labs.add('shape_%s-%s' % ('1' if self.n0 == 1 else 'N', '1' if self.n1 == 1 else 'N'))
         labs.add('route_' + self.route)
-        if self.route == 'sys_idx':
+        if self.route in ('sys_idx', 'sys_mix'):
             labs.add('idx_' + case['idx'])
-        else:
+        if self.route != 'sys_idx':
             labs.add('spell_' + case['spell'])
             if case['spell'] == 'intlist' and self.route == 'func' and np.all(self.P0 == np.rint(self.P0)) and np.all(self.P1 == np.rint(self.P1)):
                 labs.add('int_typed_positions')
@@ -449,24 +457,29 @@ def oracle_displacement(case):
 
 
 CLAUSES = [
-    Clause('lattice', oracle_lattice, gens_c02.general, quick=9000, thorough=220000,
-           min_share={'nt': 0.4, 'nt_mixed': 0.35, 'tilted': 0.25, 'rotated': 0.2, 'route_sys_idx': 0.08, 'route_sys_pos': 0.08,
-                      'shape_1-N': 0.12, 'shape_N-1': 0.12, 'shape_N-N': 0.12, 'shape_1-1': 0.06, 'kind_intcart': 0.02},
+    Clause('lattice', oracle_lattice, gens_c02.general, quick=12000, thorough=200000,
+           min_share={'nt': 0.35, 'nt_mixed': 0.35, 'multi_axis_shift': 0.2, 'tilted': 0.25, 'rotated': 0.15, 'origin': 0.2,
+                      'route_sys_idx': 0.07, 'route_sys_pos': 0.04, 'route_sys_mix': 0.04, 'shape_1-N': 0.09, 'shape_N-1': 0.09, 'shape_N-N': 0.09,
+                      'shape_1-1': 0.09, 'kind_intcart': 0.015, 'kind_dyadic': 0.04},
            desc='d - (p1-p0) is an integer combination of the cell vectors, zero along non-periodic directions, for all 8 pbc; '
                 'result shape follows the broadcast; am.dvect and System.dvect (positions and atom indices)'),
-    Clause('best27', oracle_best27, gens_c02.general, quick=9000, thorough=220000,
-           min_share={'nt': 0.4, 'nt_mixed': 0.35, 'tilted': 0.25, 'route_sys_idx': 0.08, 'shape_N-1': 0.12},
+    Clause('best27', oracle_best27, gens_c02.general, quick=12000, thorough=200000,
+           min_share={'nt': 0.35, 'nt_mixed': 0.35, 'tilted': 0.25, 'route_sys_idx': 0.07, 'route_sys_pos': 0.04, 'route_sys_mix': 0.04,
+                      'shape_1-N': 0.09, 'shape_N-1': 0.09, 'shape_N-N': 0.09, 'kind_dyadic': 0.04},
            desc='|d| is not longer than any of the 27 (9/3/1) candidates with shifts -1,0,+1 on periodic axes, for all 8 pbc'),
-    Clause('mag', oracle_mag, gens_c02.general, quick=8000, thorough=200000,
-           min_share={'nt': 0.4, 'nt_mixed': 0.35, 'tilted': 0.25, 'route_sys_idx': 0.08, 'route_sys_pos': 0.08,
-                      'shape_1-N': 0.12, 'shape_N-1': 0.12},
+    Clause('mag', oracle_mag, gens_c02.general, quick=10000, thorough=160000,
+           min_share={'nt': 0.35, 'nt_mixed': 0.35, 'tilted': 0.25, 'route_sys_idx': 0.07, 'route_sys_pos': 0.04, 'route_sys_mix': 0.04,
+                      'shape_1-N': 0.09, 'shape_N-1': 0.09, 'shape_N-N': 0.09, 'kind_dyadic': 0.04},
            desc='dmag equals |dvect| (same route, same inputs) and is not longer than any candidate; shape (N,) follows the broadcast'),
-    Clause('true_nearest', oracle_true_nearest, gens_c02.premise_heavy, quick=8000, thorough=200000,
-           min_share={'nt': 0.4},
+    Clause('true_nearest', oracle_true_nearest, gens_c02.premise_heavy, quick=10000, thorough=160000,
+           min_share={'nt': 0.3, 'premise_tilted': 0.12, 'premise_tilted_wrapped': 0.08, 'premise_ortho': 0.15,
+                      'premise_fails_incell': 0.15, 'premise_onface': 0.12, 'unique_vector_checked': 0.4, 'tie': 0.015,
+                      'beyond27': 0.05},
            desc='both points in the cell and (cell orthogonal or L* < half the smallest perpendicular width) => |d| equals the '
                 'minimum L* of an exhaustive lattice search (vector too when the minimiser is unique); always |d| >= L*'),
-    Clause('displacement', oracle_displacement, gens_c02.displacement_cases, quick=6000, thorough=160000,
-           min_share={'nt': 0.3},
+    Clause('displacement', oracle_displacement, gens_c02.displacement_cases, quick=8000, thorough=120000,
+           min_share={'nt': 0.3, 'nt_pbc_differ': 0.3, 'nt_boxes_differ': 0.2, 'ref_initial': 0.12, 'ref_default': 0.07,
+                      'ref_None': 0.06},
            desc="displacement(s0, s1, box_reference) under 'final'/default, 'initial', None: lattice + 27-candidate oracles under "
                 'the reference cell and pbc, and equal to dvect atom by atom; all 8 pbc of the reference system'),
 ]
